@@ -69,6 +69,11 @@ def gen_cases(rng, tier):
                 evs.append(_recv(d, 10 * (d + 1) + 1, "c%d" % d, cid="c0", tt="l0"))
         evs.append(_recv(gone, 10 * (gone + 1) + 1, "g0", cid="c0", tt="l0"))          # the released fork's peer: no dialog any more
         cases.append(["fork%d" % fk, "c10", setup, ",".join(evs)]); fk += 1
+    # guards dropped while other threads are inside the dialog layer (several threads registering and dropping usages at once): a usage
+    # stops receiving once its guard is dropped - afterwards the request reaches the usages whose guards are alive, and only them
+    for j, (thr, it) in enumerate(((4, 3000), (8, 1500))):
+        evs = [_recv(0, 8, "h0"), "T:0:%d:%d" % (thr, it), _recv(0, 9, "h1"), "D:0:0", "T:0:%d:%d" % (thr, it // 2), "U:0", _recv(0, 10, "h2")]
+        cases.append(["thr%d" % j, "c10", "S:7:1", ",".join(evs)])
     # usages come and go while the dialog lives: a request is offered to exactly the usages whose guard is alive at that moment
     uk = 0
     for seq in (["U", "D:0", "U", "R"], ["D:0", "U", "R", "D:1", "R"], ["U", "U", "D:1", "U", "R", "D:3", "R", "D:0", "R"], ["D:0", "D:1", "U", "R"], ["U", "D:2", "D:0", "U", "U", "R", "D:1", "R"],
@@ -244,6 +249,8 @@ def oracle(case, impl):
         if e[0] == "X":
             st[int(e[1])]["gone"] = True
             continue
+        if e[0] == "T":
+            continue
         if e[0] == "K":
             if o != "-":
                 out.append("register_usage for a dialog that does not exist returned a guard (%s)" % o)
@@ -309,6 +316,9 @@ def oracle(case, impl):
 
 
 def model_case(case, impl):
+    if "T:" in case[3]:
+        # registering and dropping a usage leaves the model's state as it was
+        case = case[:3] + [",".join("K:9" if e.startswith("T:") else e for e in case[3].split(","))] + case[4:]
     if "X:" not in case[3]:
         return case
     gone = set()
